@@ -32,7 +32,7 @@ def run(c):
     pairs = [list(p) for p in itertools.combinations(CONCRETE, 2)]
     if not c.thorough:
         pairs = pairs[c.seed % 5:: 5][:11]
-    filters = singles + pairs
+    filters = singles + pairs + [[]]        # the empty filter is a filter too: it lets nothing through
     cases = []
     tour = one_at_a_time(TOUR)
     for i, f in enumerate(filters):
